@@ -308,20 +308,22 @@ Qed.
 Section Texty.
 Variable lit_text : value -> bytes.
 
-(* what the text of a tree needs beyond wp: names of quoted identifiers are valid
-   UTF-8, and the chosen JSON text of a literal has no dangling backslash *)
+(* what the text of a tree needs beyond wp (the lexical side): unquoted names
+   match [A-Za-z_][A-Za-z0-9_]*, names of quoted identifiers are valid UTF-8, raw
+   strings have no backslash before a quote or at the end, and the chosen JSON
+   text of a literal has no dangling backslash *)
 Fixpoint texty (e : expr) : bool :=
   let lo (l : option expr) := match l with Some x => texty x | None => true end in
   let ro (r : rhs) := match r with RNone => true | RDot x => texty x | RBrk x => texty x end in
   match e with
-  | EIdent q name => if q then utf8_ok name else true
+  | EIdent q name => if q then utf8_ok name else valid_unquoted name
   | ECurrent => true
   | ELit v => paired (lit_text v)
-  | ERaw _ => true
+  | ERaw s => raw_ok s
   | EParen x => texty x
   | EMSList es => forallb texty es
-  | EMSHash kvs => forallb (fun kv : bool * bytes * expr => (if fst (fst kv) then utf8_ok (snd (fst kv)) else true) && texty (snd kv)) kvs
-  | ECall _ args => forallb (fun a => match a with AExpr x => texty x | ARef x => texty x end) args
+  | EMSHash kvs => forallb (fun kv : bool * bytes * expr => (if fst (fst kv) then utf8_ok (snd (fst kv)) else valid_unquoted (snd (fst kv))) && texty (snd kv)) kvs
+  | ECall name args => valid_unquoted name && forallb (fun a => match a with AExpr x => texty x | ARef x => texty x end) args
   | ENot x => texty x
   | EIndex l _ => lo l
   | ESlice l _ _ _ r => lo l && ro r
@@ -357,7 +359,7 @@ Proof.
   assert (Hr : forall (r : rhs) p,
              match r with
              | RNone => true
-             | RDot x => wp x && (p <? lmin x) && match head x with HIdent | HQuoted | HMulti | HStar => true | _ => false end
+             | RDot x => wp x && (p <? lmin x) && match head x with HIdent | HQuoted | HMulti | HMultiStar | HStar => true | _ => false end
              | RBrk x => wp x && (p <? lmin x) && match head x with HBracket | HFilter => true | _ => false end
              end = true ->
              match r with RNone => true | RDot x => texty x | RBrk x => texty x end = true ->
@@ -367,11 +369,11 @@ Proof.
   { intros [z|]; [|constructor]. constructor; [|constructor]. unfold lexable. cbn [tk ttype tvalue]. apply number_text_int. }
   destruct e as [q name | | lv | s | x | es | kvs | fname args | x | l i | l a b c r | l r | l r
                  | l c r | l r | l r | l r | l r | l r | op l r]; cbn [render]; cbn [wp] in Hw; cbn [texty] in Ht.
-  - destruct q; constructor; [exact Ht | constructor | exact Hw | constructor].
+  - destruct q; constructor; [exact Ht | constructor | exact Ht | constructor].
   - fixedtok.
   - constructor; [exact Ht | constructor].
-  - constructor; [exact Hw | constructor].
-  - constructor; [reflexivity|]. apply Forall_app. split; [apply IH; assumption | fixedtok].
+  - constructor; [exact Ht | constructor].
+  - sp Hw. constructor; [reflexivity|]. apply Forall_app. split; [apply IH; assumption | fixedtok].
   - constructor; [reflexivity|]. apply Forall_app. split; [|fixedtok].
     apply lexables_sep; [fixedtok|]. apply andb_true_iff in Hw as [_ Hw].
     induction es as [|x es IHes]; constructor; cbn [forallb] in Hw, Ht; sp Hw; sp Ht; [apply IH; assumption | apply IHes; assumption].
@@ -379,14 +381,14 @@ Proof.
     apply lexables_sep; [fixedtok|]. apply andb_true_iff in Hw as [_ Hw].
     induction kvs as [|[[q k] x] kvs IHk]; constructor; cbn [forallb fst snd] in Hw, Ht; sp Hw; sp Ht; [|apply IHk; assumption].
     cbn [fst snd]. constructor; [destruct q; assumption|]. constructor; [reflexivity | apply IH; assumption].
-  - sp Hw. constructor; [exact Hw|]. constructor; [reflexivity|]. apply Forall_app. split; [|fixedtok].
+  - sp Ht. constructor; [exact Ht|]. constructor; [reflexivity|]. apply Forall_app. split; [|fixedtok].
     apply lexables_sep; [fixedtok|].
-    induction args as [|a args IHa]; constructor; cbn [forallb] in Hw0, Ht; sp Hw0; sp Ht; [|apply IHa; assumption].
-    destruct a as [x|x]; [apply IH; assumption | constructor; [reflexivity | apply IH; assumption]].
+    induction args as [|a args IHa]; constructor; cbn [forallb] in Hw, Ht0; sp Hw; sp Ht0; [|apply IHa; assumption].
+    destruct a as [x|x]; sp Hw; [apply IH; assumption | constructor; [reflexivity | apply IH; assumption]].
   - sp Hw. constructor; [reflexivity | apply IH; assumption].
   - sp Hw. apply Forall_app. split; [eapply Ho; eassumption|]. constructor; [reflexivity|]. constructor; [apply number_text_int | fixedtok].
   - sp Hw. sp Ht. repeat (apply Forall_app; split); try (eapply Ho; eassumption); try apply Hn; try (eapply Hr; eassumption); try fixedtok.
-    destruct c; [apply Forall_app; split; [fixedtok | apply Hn] | constructor].
+    destruct c as [o|]; [apply Forall_app; split; [fixedtok | apply Hn] | constructor].
   - sp Hw. sp Ht. repeat (apply Forall_app; split); try (eapply Ho; eassumption); try (eapply Hr; eassumption); fixedtok.
   - sp Hw. sp Ht. repeat (apply Forall_app; split); try (eapply Ho; eassumption); try (eapply Hr; eassumption); fixedtok.
   - sp Hw. sp Ht. repeat (apply Forall_app; split); try (eapply Ho; eassumption); try (eapply Hr; eassumption); try (apply IH; assumption); fixedtok.
@@ -417,31 +419,32 @@ Proof.
   exists out. rewrite Ho. cbn [rev app]. rewrite Z.add_0_l. split; [reflexivity | exact Hs].
 Qed.
 
-Theorem compile_text e : wp e = true -> Forall (fun t => lexable t = true) (render lit_text e) ->
+Theorem compile_text e : wp e = true -> npos e = true -> Forall (fun t => lexable t = true) (render lit_text e) ->
   Api.compile (expr_text e) = Ok (Grammar.compile e).
 Proof.
-  intros Hw Hl. unfold Api.compile, parse, expr_text.
+  intros Hw Hnp Hl. unfold Api.compile, parse, expr_text.
   destruct (tokenize_text _ Hl) as [out [Ho Hs]]. rewrite Ho. cbn [bind].
-  apply (parse_tokens_complete lit_text lit_ok e _ Hw).
+  apply (parse_tokens_complete lit_text lit_ok e _ Hw Hnp).
   - apply noeof_eof_wf; [|reflexivity]. exact (same_tv_noeof _ _ Hs (render_noeof lit_text e)).
   - intros k t Hk. rewrite Nat.add_0_l.
     assert (H2 : Forall2 same_tv (out ++ [Token tEOF [] (zlen (text_of (render lit_text e))) 0]) (render lit_text e ++ [tk tEOF []])).
     { apply Forall2_app; [exact Hs|]. constructor; [split; reflexivity | constructor]. }
-    destruct (Forall2_nth _ _ _ H2 k t Hk) as [t' [Hk' [T1 T2]]]. exists t'. auto.
+    destruct (Forall2_nth _ _ _ H2 k t Hk) as [t' [Hk' [T1 T2]]]. exists t'. split; [exact Hk'|]. split; [exact T1|].
+    rewrite T2. destruct (ttype t); cbn; auto.
 Qed.
 
 (* every well-precedenced tree has a text — its tokens, each followed by a space —
    on which Compile returns exactly the AST of the tree *)
-Theorem compile_expr_text e : wp e = true -> texty lit_text e = true ->
+Theorem compile_expr_text e : wp e = true -> npos e = true -> texty lit_text e = true ->
   Api.compile (expr_text e) = Ok (Grammar.compile e).
-Proof. intros Hw Ht. apply compile_text; [exact Hw | apply render_lexable; assumption]. Qed.
+Proof. intros Hw Hnp Ht. apply compile_text; [exact Hw | exact Hnp | apply render_lexable; assumption]. Qed.
 
 (* ... and Search on that text is the denotation of the tree *)
-Theorem search_expr_text (ord : obj -> obj) (ord_perm : forall m, Permutation.Permutation (ord m) m) e d : wp e = true -> texty lit_text e = true ->
+Theorem search_expr_text (ord : obj -> obj) (ord_perm : forall m, Permutation.Permutation (ord m) m) e d : wp e = true -> npos e = true -> texty lit_text e = true ->
   sem_ok e = true -> plain d = true ->
   Api.search ord (expr_text e) d = eval ord e d.
 Proof.
-  intros Hw Ht Hs Hd. unfold Api.search. pose proof (compile_expr_text e Hw Ht) as Hc. unfold Api.compile in Hc.
+  intros Hw Hnp Ht Hs Hd. unfold Api.search. pose proof (compile_expr_text e Hw Hnp Ht) as Hc. unfold Api.compile in Hc.
   rewrite Hc. cbn [bind]. apply (search_compiled_is_eval ord ord_perm e d Hs Hd).
 Qed.
 
